@@ -9,6 +9,15 @@ created with ``MetaData.create_all`` and read back through the Inspector
 get_indexes / get_check_constraints`` and their ``get_multi_*`` forms),
 ``Table(autoload_with=)`` and ``MetaData.reflect``.
 
+The generator also crosses dialect-specific options (``sqlite_autoincrement``, ``WITHOUT
+ROWID``, ``Column(autoincrement=True/False/"auto")``) with primary keys that are also foreign
+keys, composite and non-integer keys; what was really created (columns *and* primary key)
+is confirmed through raw PRAGMA before reflection is judged.  Every case further drives
+three of nine reflection entry-point sequences into one MetaData (two-step
+``reflect()`` / ``reflect(schema=, only=list|callable, extend_existing, views,
+resolve_fks)``, ``Inspector.reflect_table``, mixed ``Table(autoload_with=)``); attached-schema
+cases hold *different* tables of the same bare names in ``main``.
+
 Oracle: field-by-field comparison with the *definition* through a normaliser that encodes
 only what SQLite documents as lossy:
   * types are compared by SQLite type affinity (datatype3.html section 3.1, implemented
@@ -53,6 +62,7 @@ META = {
         "tables_reflected", "columns_compared", "fks_compared", "uniques_compared", "indexes_compared",
         "checks_compared", "defaults_compared", "pk_compared", "second_generation_tables", "autoload_tables",
         "metadata_reflect_tables", "multi_api_compared", "attached_schema_cases", "raw_pragma_confirmations",
+        "tables_with_dialect_options", "pk_is_also_fk_tables", "entry_point_sequences", "entry_points_with_name_collision",
     ],
     "assumptions": ["SQLite affinity rules transcribed from datatype3.html section 3.1"],
 }
@@ -147,23 +157,44 @@ def gen_schema(rng, sa, want_schema):
         tname = gen_name(rng, used_t, "t")
         used_c = set()
         cols = []
-        pk_style = rng.choice(["int", "int", "composite", "string", "none"])
-        if pk_style == "int":
+        # earlier tables whose primary key is one integer column: a pk column here may also be
+        # a foreign key to it (joined-table-inheritance layout)
+        int_parents = [x for x in tables if [c["type"] for c in x["cols"] if c["pk"]] == ["Integer"]]
+        pk_style = rng.choice(["int", "int", "composite", "string", "none"] + (["fk-int", "fk-int", "fk-composite"] if int_parents else []))
+        pk_fk = None
+        if pk_style in ("int", "fk-int"):
             cols.append({"name": gen_name(rng, used_c, "id"), "type": "Integer", "pk": True, "nullable": False})
-        elif pk_style == "composite":
+        elif pk_style in ("composite", "fk-composite"):
             cols.append({"name": gen_name(rng, used_c, "ka"), "type": "Integer", "pk": True, "nullable": False})
             cols.append({"name": gen_name(rng, used_c, "kb"), "type": rng.choice(["Integer", "String(7)"]), "pk": True, "nullable": False})
         elif pk_style == "string":
             cols.append({"name": gen_name(rng, used_c, "code"), "type": "String(20)", "pk": True, "nullable": False})
+        if pk_style.startswith("fk-"):
+            par = rng.choice(int_parents)
+            pk_fk = {"cols": [cols[0]["name"]], "ref": par["name"], "refcols": [c["name"] for c in par["cols"] if c["pk"]],
+                     "name": gen_name(rng, con_names, "fkc") if rng.random() < 0.5 else None,
+                     "ondelete": rng.choice(FK_ACTIONS), "onupdate": None, "deferrable": None, "initially": None}
+        # Column(autoincrement=...) on primary key columns: True only where SQLite allows it
+        for c in cols:
+            if rng.random() < 0.5:
+                c["autoinc"] = rng.choice(["auto", False] + ([True] if len(cols) == 1 and c["type"] == "Integer" else []))
+        # dialect-specific table options
+        opts = {}
+        if rng.random() < 0.3:
+            opts["sqlite_autoincrement"] = True
+        elif cols and rng.random() < 0.2:
+            opts["sqlite_with_rowid"] = False
         for _ in range(rng.randint(1, 5)):
             ty = rng.choice(pal)
             c = {"name": gen_name(rng, used_c, "c"), "type": ty, "pk": False, "nullable": rng.random() < 0.6}
             if ty in KIND and rng.random() < 0.4:
                 c["default"] = rng.choice(DEFAULTS[KIND[ty]])
             cols.append(c)
-        t = {"name": tname, "cols": cols, "pk_name": None, "fks": [], "uqs": [], "cks": [], "idx": [], "computed": []}
+        t = {"name": tname, "cols": cols, "pk_name": None, "fks": [pk_fk] if pk_fk else [], "uqs": [], "cks": [], "idx": [], "computed": [],
+             "opts": opts}
         pkcols = [c["name"] for c in cols if c["pk"]]
-        if pkcols and rng.random() < 0.3:
+        # (an inline "PRIMARY KEY AUTOINCREMENT" cannot carry a constraint name)
+        if pkcols and rng.random() < 0.3 and not opts.get("sqlite_autoincrement"):
             t["pk_name"] = gen_name(rng, con_names, "pk")
         # PRIMARY KEY (kb, ka): key order differs from column order
         t["pk_rev"] = len(pkcols) == 2 and rng.random() < 0.5
@@ -236,6 +267,8 @@ def build(sa, spec, prep):
             if c["pk"]:
                 kw["primary_key"] = True
                 kw.pop("nullable")
+                if "autoinc" in c:
+                    kw["autoincrement"] = c["autoinc"]
             d = c.get("default")
             if d:
                 kind, _, val = d[0].partition(":")
@@ -252,7 +285,7 @@ def build(sa, spec, prep):
             args.append(sa.UniqueConstraint(*u["cols"], name=u["name"]))
         for k in t["cks"]:
             args.append(sa.CheckConstraint(sa.text(lit(f"{q(k['col'])} {k['op']}")), name=k["name"]))
-        T = sa.Table(t["name"], md, *args, schema=sch)
+        T = sa.Table(t["name"], md, *args, schema=sch, **t.get("opts", {}))
         built[t["name"]] = T
         for fk in t["fks"]:  # targets are earlier tables or the table itself: Column objects, so any name works
             R = built[fk["ref"]]
@@ -279,7 +312,7 @@ def run(ctx):
     for k in range(ncases):
         if not ctx.budget_ok():
             break
-        spec = gen_schema(rng, sa, want_schema=(k % 4 == 3))
+        spec = gen_schema(rng, sa, want_schema=(k % 3 == 2))
         one_case(ctx, sa, prep, spec, k)
 
 
@@ -327,6 +360,13 @@ def one_case(ctx, sa, prep, spec, k):
                 raise RuntimeError(f"generator produced a schema create_all warns about: {w}")
             raw = c.connection.dbapi_connection
             pre = f"{hq(sch)}." if sch else ""
+            twins = []
+            if sch:
+                # name collisions across schemas: a *different* table of the same bare name in main
+                for t in spec["tables"]:
+                    if not twins or k % 2:
+                        raw.execute(f"CREATE TABLE {hq(t['name'])} (tw_id INTEGER PRIMARY KEY, tw_only VARCHAR(5))")
+                        twins.append(t["name"])
             if sch:
                 ctx.count("attached_schema_cases")
             insp = inspect(c)
@@ -342,6 +382,18 @@ def one_case(ctx, sa, prep, spec, k):
                 if rawcols != expcols:
                     bad("created-columns-differ-from-definition", f"{where}: PRAGMA has {rawcols!r}, defined {expcols!r}")
                     continue
+                rawpk = [r[1] for r in sorted((r for r in raw.execute(f"PRAGMA {pre}table_xinfo({hq(tn)})") if r[5]), key=lambda r: r[5])]
+                defpk = [x["name"] for x in t["cols"] if x["pk"]]
+                if t.get("pk_rev"):
+                    defpk = defpk[::-1]
+                if rawpk != defpk:
+                    bad("created-primary-key-differs-from-definition",
+                        f"{where} (options {t.get('opts')}): created table has primary key {rawpk!r}, defined {defpk!r}")
+                    continue
+                if t.get("opts"):
+                    ctx.count("tables_with_dialect_options")
+                if any(f["cols"] == defpk for f in t["fks"]) and defpk:
+                    ctx.count("pk_is_also_fk_tables")
                 try:
                     cols = insp.get_columns(tn, schema=sch)
                     pk = insp.get_pk_constraint(tn, schema=sch)
@@ -462,6 +514,9 @@ def one_case(ctx, sa, prep, spec, k):
             except (sa.exc.SAWarning, sa.exc.SQLAlchemyError, AssertionError, KeyError, IndexError, TypeError, ValueError) as e:
                 bad(f"reflect-raised:{type(e).__name__}", f"{type(e).__name__}: {str(e)[:300]}")
                 mdr = None
+            # ---- the other reflection entry points, into one MetaData, with name collisions
+            if len(gen1) == len(spec["tables"]):
+                entry_points(ctx, sa, c, insp, spec, gen1, twins, compiler, bad, k)
             # ---- second generation
             if mdr is not None and len(gen1) == len(spec["tables"]):
                 with eng2.connect() as c2:
@@ -487,6 +542,101 @@ def one_case(ctx, sa, prep, spec, k):
     ctx.case(spec, nontrivial=nontriv)
     if k < 2:
         ctx.sample(spec)
+
+
+def entry_points(ctx, sa, c, insp, spec, gen1, twins, compiler, bad, k):
+    """MetaData.reflect with schema / only=list / only=callable / views / extend_existing /
+    resolve_fks in two-step (automap style) sequences, Inspector.reflect_table and
+    Table(autoload_with=) into one MetaData that already holds the same bare names of the
+    other schema.  Every created table must be present under its key with what the
+    Inspector reported; the main-schema twins must keep their own definition."""
+    sch = spec["schema"]
+    names = [t["name"] for t in spec["tables"]]
+    every = lambda name, m: True                      # noqa: E731
+    subset = set(names[: max(1, len(names) // 2)])
+
+    def v_plain_then_callable(md):
+        md.reflect(c)
+        md.reflect(c, schema=sch, only=every)
+
+    def v_plain_then_list(md):
+        md.reflect(c)
+        md.reflect(c, schema=sch, only=list(names))
+
+    def v_schema_then_plain(md):
+        md.reflect(c, schema=sch)
+        md.reflect(c)
+
+    def v_callable_extend(md):
+        md.reflect(c)
+        md.reflect(c, schema=sch, only=every, extend_existing=True)
+
+    def v_views_nofk(md):
+        md.reflect(c, schema=sch, views=True, resolve_fks=False)
+        md.reflect(c, views=True)
+
+    def v_twice(md):
+        md.reflect(c, schema=sch, only=every)
+        md.reflect(c, schema=sch, only=every)
+        md.reflect(c, only=every)
+
+    def v_subset_callable(md):
+        md.reflect(c)
+        md.reflect(c, schema=sch, only=lambda name, m: name in subset)
+        md.reflect(c, schema=sch, only=lambda name, m: name not in subset)
+
+    def v_reflect_table(md):
+        for tw in twins:
+            sa.Table(tw, md, autoload_with=c)
+        for nm in names:
+            insp.reflect_table(sa.Table(nm, md, schema=sch), None)
+
+    def v_autoload_mixed(md):
+        for nm in names:
+            if nm in twins:
+                sa.Table(nm, md, autoload_with=c)
+            sa.Table(nm, md, autoload_with=c, schema=sch)
+
+    variants = [v_plain_then_callable, v_plain_then_list, v_schema_then_plain, v_callable_extend, v_views_nofk, v_twice,
+                v_subset_callable, v_reflect_table, v_autoload_mixed]
+    outer_bad = bad
+    for j in range(3):
+        fn = variants[(k * 3 + j) % len(variants)]
+        md = sa.MetaData()
+        # re-reflecting tables that are already present with extend_existing=True appends their
+        # indexes a second time: a separate, reported mechanism (selftest/C15/proposed/)
+        rereflect = fn is v_callable_extend and not sch
+
+        def bad(mech, msg, _r=rereflect, **extra):
+            if _r and mech == "entry-point-table-indexes-differ-from-inspector":
+                mech = "extend-existing-rereflect-duplicates-indexes"
+            outer_bad(mech, msg, **extra)
+
+        try:
+            fn(md)
+        except (sa.exc.SAWarning, sa.exc.SQLAlchemyError, AssertionError, KeyError, IndexError, TypeError, ValueError) as e:
+            bad(f"reflect-raised:{type(e).__name__}", f"entry point {fn.__name__}: {type(e).__name__}: {str(e)[:300]}")
+            continue
+        ctx.count("entry_point_sequences")
+        if twins:
+            ctx.count("entry_points_with_name_collision")
+        for t in spec["tables"]:
+            key = (sch + "." if sch else "") + t["name"]
+            if key not in md.tables:
+                bad("reflect-entry-point-missing-table", f"{fn.__name__}: {key!r} not in MetaData.tables {sorted(md.tables)!r}")
+                continue
+            try:
+                table_vs_inspector(ctx, bad, compiler, md.tables[key], gen1[t["name"]], t, "entry-point")
+            except (sa.exc.SQLAlchemyError, AssertionError, KeyError) as e:
+                bad(f"reflect-raised:{type(e).__name__}", f"entry point {fn.__name__}: {type(e).__name__}: {str(e)[:300]}")
+        if fn not in (v_reflect_table, v_autoload_mixed) or True:
+            for tw in twins:
+                if tw in md.tables:
+                    got = [col.name for col in md.tables[tw].columns]
+                    if got != ["tw_id", "tw_only"]:
+                        bad("reflect-entry-point-wrong-schema-table", f"{fn.__name__}: main table {tw!r} has columns {got!r}")
+                elif fn is not v_autoload_mixed or True:
+                    bad("reflect-entry-point-missing-table", f"{fn.__name__}: main table {tw!r} not in MetaData.tables {sorted(md.tables)!r}")
 
 
 def plain(compiler, obj):
